@@ -506,6 +506,86 @@ def monotone(ctx, site="bulk", beta_kind=1):
     ctx.prove("steady-state rate does not decrease with driving force", ctx.implies(regular, ctx.le(rate[0], rate[1])))
 
 
+# =========================================================================== 3b. argument purity
+def snapshot(arr):
+    return [e * 1 if not isinstance(e, (float, np.floating)) else float(e) for e in np.asarray(arr).ravel()]
+
+
+def unchanged(ctx, arr, copy):
+    """the caller's array still holds, element by element, what it held before the call (and nothing non-finite)"""
+    cur = list(np.asarray(arr).ravel())
+    if len(cur) != len(copy):
+        return False
+    for e in cur:
+        if isinstance(e, (float, np.floating)) and not math.isfinite(e):
+            return False
+    return ctx.all([ctx.eq(a, b) for a, b in zip(cur, copy)])
+
+
+def purity(ctx, site="bulk", beta_kind=1):
+    """every array-taking function of NucleationRate.py leaves the arrays the caller hands in unchanged (driving force, T,
+    x, Rcrit, Gcrit, Z, beta, tau: compared element-wise with copies taken before the call), and a second call with
+    the very same arrays gives the same result -- in particular rate 0 for the non-positive driving force dG[0]"""
+    p, gamma, k = mk_prec(ctx, site, sym_k=False)
+    p.volume.setVolume(pos(ctx, "VmB", (0.5e23, 2e23)), "VM", 4)
+    matrix = mk_matrix(ctx)
+    therm = Therm(ctx)
+    if site in ("grain edges", "grain corners"):
+        b, a, c = factors(ctx, p, site)
+        ctx.assume(c > 0, "volume factor of edge/corner nuclei positive inside the admissible range")
+        ctx.assume(b > 0, "area factor of edge/corner nuclei positive inside the admissible range")
+    n = 2
+    dG = ctx.reals("dG", n, (-1.0, 3.0)); T = ctx.reals("T", n, (1e22, 1e23)); x = ctx.reals("x", n, (0.01, 0.3))
+    ctx.assume(dG[0] <= 0, "the first entry is a non-positive driving force")
+    for i in range(n):
+        ctx.assume(T[i] > 0); ctx.assume(x[i] > 0); ctx.assume(x[i] < 1)
+    t = pos(ctx, "time", (0.1, 5.0))
+    dG0, T0, x0 = snapshot(dG), snapshot(T), snapshot(x)
+    xx = np.atleast_2d(x).T if beta_kind == 3 else x
+
+    def beta_of(R):
+        if beta_kind == 1:
+            return NR.betaBinary1(therm, x, T, R, matrix, p)
+        if beta_kind == 2:
+            return NR.betaBinary2(therm, x, T, R, matrix, p)
+        return NR.betaMulti(therm, xx, T, R, matrix, p)
+
+    nm_b = "nucleationBarrier leaves the caller's driving-force array unchanged (finite, same values)"
+    try:
+        R, G = NR.nucleationBarrier(dG, p)
+        ok = unchanged(ctx, dG, dG0)
+        R2, G2 = NR.nucleationBarrier(dG, p)
+    except _core.VkError as e:
+        if "non-finite" not in str(e):
+            raise
+        # the real code stored inf / nan into an array of reals: on plain numpy this is the caller's array holding inf
+        ctx.prove(nm_b, False)
+        return
+    ctx.prove(nm_b, ctx.all([ok, unchanged(ctx, dG, dG0)]))
+    ctx.prove("nucleationBarrier: second call with the same array gives the same result",
+              ctx.all([ctx.eq(R[i], R2[i]) for i in range(n)] + [ctx.eq(G[i], G2[i]) for i in range(n)]))
+    R0, G0 = snapshot(R), snapshot(G)
+    Z = NR.zeldovich(T, R, p)
+    ctx.prove("zeldovich leaves T and Rcrit unchanged", ctx.all([unchanged(ctx, T, T0), unchanged(ctx, R, R0)]))
+    beta = beta_of(R)
+    ctx.prove("impingement rate function leaves x, T and Rcrit unchanged", ctx.all([unchanged(ctx, x, x0), unchanged(ctx, T, T0), unchanged(ctx, R, R0)]))
+    Z0, b0 = snapshot(Z), snapshot(beta)
+    tau = NR.incubationTime(beta, Z, matrix)
+    ctx.prove("incubationTime leaves beta and Z unchanged", ctx.all([unchanged(ctx, beta, b0), unchanged(ctx, Z, Z0)]))
+    tau0 = snapshot(tau)
+    rate = NR.nucleationRate(Z, beta, G, T, tau, time=t)
+    ctx.prove("nucleationRate leaves Z, beta, Gcrit, T and tau unchanged",
+              ctx.all([unchanged(ctx, Z, Z0), unchanged(ctx, beta, b0), unchanged(ctx, G, G0), unchanged(ctx, T, T0), unchanged(ctx, tau, tau0)]))
+    Rn = NR.nucleationRadius(T, R, p)
+    ctx.prove("nucleationRadius leaves T and Rcrit unchanged", ctx.all([unchanged(ctx, T, T0), unchanged(ctx, R, R0)]))
+    ctx.observe("rate", rate); ctx.observe("R", R)
+    # the whole chain once more on the very same input arrays
+    R3, G3, Z3, beta3, tau3, rate3 = chain(ctx, p, matrix, therm, dG, T, xx, beta_kind, t)
+    ctx.prove("second evaluation with the same arrays: same rate", ctx.all([ctx.eq(rate[i], rate3[i]) for i in range(n)]))
+    ctx.prove("second evaluation with the same arrays: rate 0 for the non-positive driving force", ctx.all([ctx.eq(rate3[0], 0.0), ctx.eq(R3[0], 0.0), ctx.eq(G3[0], 0.0)]))
+    ctx.prove("caller's arrays unchanged after the whole chain", ctx.all([unchanged(ctx, dG, dG0), unchanged(ctx, T, T0), unchanged(ctx, x, x0)]))
+
+
 # =========================================================================== 4. cached factors
 CLS = {"bulk": NUC.BulkDescription, "dislocations": NUC.DislocationDescription, "grain boundaries": NUC.GrainBoundaryDescription,
        "grain edges": NUC.GrainEdgeDescription, "grain corners": NUC.GrainCornerDescription}
@@ -926,8 +1006,11 @@ def noniso(ctx, N=2):
             ctx.assume(times[i - 1] < times[i])
     ct = ctx.real("currTime", (1.0, 2.0)); ctx.assume(ct >= times[N - 1])
     cT = pos(ctx, "currTemp", (0.5, 2.0))
+    b0, t0, T0 = snapshot(betas), snapshot(times), snapshot(temps)
     tau = sc(NR.incubationTimeNonIsothermal(Z, cb, ct, cT, betas, times, temps, matrix))
     ctx.observe("tau", tau)
+    ctx.prove("incubationTimeNonIsothermal leaves the recorded beta / time / temperature arrays unchanged",
+              ctx.all([unchanged(ctx, betas, b0), unchanged(ctx, times, t0), unchanged(ctx, temps, T0)]))
     ctx.prove("incubation time >= 0", ctx.le(0.0, tau))
     safe(ctx, "divisions well defined", [tau])
 
@@ -946,8 +1029,11 @@ def barrier_api(ctx, site="grain edges"):
     # Gcrit at that radius (handed in as the value just established, as nucleationBarrier's callers do)
     Gp = sc(p.nucleation.Gcrit(dp, Rp))
     ctx.observe("Gp", Gp)
-    ctx.prove("Gcrit(dG, Rcrit(dG)) = spherical barrier * volumeFactor/(4 pi/3)", ctx.eq(Gp * dp * dp, 4 * gamma * gamma * gamma * c))
-    ctx.prove("Gcrit(dG, Rcrit(dG)) >= 0", ctx.le(0.0, Gp))
+    lemma = ctx.eq(Gp * dp * dp, 4 * gamma * gamma * gamma * c)
+    ctx.prove("Gcrit(dG, Rcrit(dG)) = spherical barrier * volumeFactor/(4 pi/3)", lemma)
+    # posed relative to the equality just proved (then only the signs of gamma, dG and the volume factor matter); the two
+    # obligations together are the unconditional claim
+    ctx.prove("Gcrit(dG, Rcrit(dG)) >= 0", ctx.implies(lemma, ctx.le(0.0, Gp)) if ctx.mode == "symbolic" else ctx.le(0.0, Gp))
 
 
 _FB = [NR.nucleationBarrier, NucleationBarrierParameters.Rcrit, NucleationBarrierParameters.Gcrit]
@@ -994,6 +1080,10 @@ HARNESSES = [
                               {"site": "grain edges", "beta_kind": 3, "n": 1}, {"site": "dislocations", "beta_kind": 1, "n": 2}, {"site": "grain corners", "beta_kind": 1, "n": 1}],
                     "thorough": [{"site": s, "beta_kind": b, "n": 1} for s in SITES for b in (1, 2, 3)] +
                                 [{"site": "bulk", "beta_kind": 2, "n": 2}, {"site": "grain boundaries", "beta_kind": 1, "n": 2}, {"site": "dislocations", "beta_kind": 3, "n": 2}]}),
+    Harness("C14.purity", purity, functions=_FR, stubs=_ST, assumptions=_AR + ["length-2 arrays whose first driving force is non-positive"],
+            bounds={"array length": 2},
+            params={"quick": [{"site": "bulk", "beta_kind": 1}, {"site": "grain boundaries", "beta_kind": 2}, {"site": "dislocations", "beta_kind": 3}],
+                    "thorough": [{"site": s, "beta_kind": b} for s in SITES for b in (1, 2, 3)]}),
     Harness("C14.incubation", incubation, functions=[NR.nucleationRate], params={"quick": [{"n": 1, "steady": True}, {"n": 2, "steady": False}], "thorough": [{"n": 3, "steady": True}, {"n": 2, "steady": False}]}),
     Harness("C14.monotone", monotone, functions=_FR, stubs=_ST, assumptions=_AR,
             params={"quick": [{"site": "bulk", "beta_kind": 1}, {"site": "grain boundaries", "beta_kind": 1}],
